@@ -295,10 +295,11 @@ def iter_setup(eng):
         i = e.ghost['pos'][h]
         e.ghost['pos'][h] = i + 1
         if e.branch(NL[h].z > i):
-            # the last line of a file may end at end-of-file without a newline; a file may use CRLF line ends
+            # the last line of a file may end at end-of-file without a newline (CRLF line ends never reach the code: text
+            # handles opened with the default newline handling translate them to \n)
             if e.branch(z3.And(NL[h].z == i + 1, z3.Not(FINAL_NL[h].z))):
                 return line(h, i)
-            return segstr.build([line(h, i), '\r\n' if e.branch(CRLF[h].z) else '\n'])
+            return segstr.build([line(h, i), '\n'])
         return ''
     stubs.STUBS['LineSource'] = {'methods': {'readline': readline}, 'props': {}, 'setters': {}}
     eng.spec_env['LINE'] = Builtin('LINE', lambda e, a, k, n: line(a[0], a[1]))
@@ -328,7 +329,7 @@ fastq_next = Contract(
     },
     # the iteration stops exactly when some file has no further (non-empty) header line
     raises={'StopIteration': 'any(NLINES[h] < 1 or len(LINE(h, 0)) == 0 for h in range(2))'},
-    assumptions=['text handles: readline returns the next line with its newline (LF or CRLF; the last line possibly without), "" at end of file (A4); lines contain no '
+    assumptions=['text handles: readline returns the next line with its newline (universal newlines: always \\n; the last line possibly without), "" at end of file (A4); lines contain no '
                  'other whitespace (A7)'],
 )
 fastq_next.ensures['record_returned_only_if_all_headers_present'] = 'all(NLINES[h] >= 1 and len(LINE(h, 0)) > 0 for h in range(2))'
